@@ -61,6 +61,11 @@ def note_mismatches(chk, blocks, mo, io, label, limit=20):
             elif len(p) > 1 and p[1] in tainted:
                 chk.count(label + ':skipped-after-UB-load')
                 continue
+            if p and p[0] == 'preds':
+                # model-only: which theorem hypotheses hold of this zone (recorded in the evidence)
+                for kv in a.split():
+                    if '=' in kv: chk.count('hypothesis:' + kv)
+                continue
             if canon(c) != a:
                 k += 1
                 if len([x for x in chk.broken if x.startswith('correspondence')]) < limit:
@@ -80,6 +85,10 @@ def zid(i): return 'z%d' % i
 
 def load_line(i, zone, mode='loose'):
     return 'zone %s %s %s' % (zid(i), mode, Z.hx(zone.data))
+
+
+def preds_line(i):
+    return 'preds %s' % zid(i)
 
 
 def pick_corpus(chk, scale):
@@ -122,7 +131,7 @@ def run_C01(chk):
     blocks = []; meta = []
     for i, zn in enumerate(zones):
         ts = Z.probe_instants(zn, chk.rng, per_transition=3 if scale == 'quick' else 8, n_random=60 if scale == 'quick' else 400)
-        blocks.append([load_line(i, zn)] + ['bt %s %d' % (zid(i), t) for t in ts]); meta.append(ts)
+        blocks.append([load_line(i, zn)] + ['bt %s %d' % (zid(i), t) for t in ts] + [preds_line(i)]); meta.append(ts)
     mo, io = run_blocks(chk, exe, blocks, 'lookup')
     note_mismatches(chk, blocks, mo, io, 'lookup')
     good = 0
@@ -201,7 +210,7 @@ def civil_blocks(chk, zones, scale, op='mt', shuffle_too=False):
         if shuffle_too:
             sh = list(cs); chk.rng.shuffle(sh)
             cs = cs + sh
-        blocks.append([load_line(i, zn)] + ['%s %s %s' % (op, zid(i), C.fmt(c)) for c in cs]); meta.append(cs)
+        blocks.append([load_line(i, zn)] + ['%s %s %s' % (op, zid(i), C.fmt(c)) for c in cs] + [preds_line(i)]); meta.append(cs)
     return blocks, meta
 
 
@@ -374,7 +383,7 @@ def run_C11(chk):
         qs = sorted(q for q in qs if I64MIN <= q <= I64MAX)
         b = [load_line(i, zn)]
         for q in qs: b += ['nt %s %d' % (zid(i), q), 'pt %s %d' % (zid(i), q)]
-        b += ['ntchain %s' % zid(i), 'ptchain %s' % zid(i)]
+        b += [preds_line(i), 'ntchain %s' % zid(i), 'ptchain %s' % zid(i)]
         blocks.append(b); meta.append((qs, real))
     mo, io = run_blocks(chk, exe, blocks, 'transitions')
     note_mismatches(chk, blocks, mo, io, 'transitions')
